@@ -164,7 +164,7 @@ func verifyFromStarcoinTx(native *native.NativeService, proof, extra []byte, fro
 		return nil, fmt.Errorf("verifyFromStarcoinTx, get current header fail, error:%s", err)
 	}
 	bestHeight := uint32(bestHeader.BlockHeader.Number)
-	if bestHeight < height || bestHeight-height < uint32(sideChain.BlocksToWait-1) {
+	if bestHeight < height || uint64(bestHeight-height) < sideChain.BlocksToWait-1 {
 		return nil, fmt.Errorf("verifyFromStarcoinTx, transaction is not confirmed, current height: %d, input height: %d", bestHeight, height)
 	}
 
